@@ -15,6 +15,8 @@ structure MAttr where
   sub : Option Text := none
   dflt : Option Leaf := none
   readOnly : Bool := false
+  /-- a ByteArray member: `encoding=` is given in the declaration (else the type leaves it to the protocol) -/
+  encDeclared : Bool := false
   deriving Repr, Inhabited
 
 /-- a declared member type: members carry (Python name, attributes, occurrence attributes, type) -/
@@ -36,24 +38,35 @@ def keyName (F : Facts03) (cont : Option (Option Text)) (n : Text) (sub : Option
     | .container => c.getD n
     | .other => n
 
+/-- the codec a ByteArray member is read and written with by HttpRpc (`byte_array_from_bytes(cls, value,
+    suggested_encoding=self.binary_encoding)`): the protocol suggests urlsafe base64 -/
+def effPrim (F : Facts03) (declared : Bool) : PK → PK
+  | .bytes enc => if declared && F.bytesDeclaredWins then .bytes enc else .bytes .urlsafe
+  | p => p
+
+/-- the documented reading: a declared encoding is the encoding -/
+def ownPrim (declared : Bool) : PK → PK
+  | .bytes enc => if declared then .bytes enc else .bytes .urlsafe
+  | p => p
+
 mutual
 /-- the flat signature the member table is built for -/
-def keyedTy (F : Facts03) (own : Option Text) : DTy → Ty
-  | .prim p => .prim p
-  | .obj cid fs => .obj cid (keyedFields F (some own) fs)
+def keyedTy (F : Facts03) (a : MAttr) : DTy → Ty
+  | .prim p => .prim (effPrim F a.encDeclared p)
+  | .obj cid fs => .obj cid (keyedFields F (some a.sub) fs)
 def keyedFields (F : Facts03) (cont : Option (Option Text)) : List DFld → List Fld
   | [] => []
-  | (n, a, occ, t) :: r => (keyName F cont n a.sub, occ, keyedTy F a.sub t) :: keyedFields F cont r
+  | (n, a, occ, t) :: r => (keyName F cont n a.sub, occ, keyedTy F a t) :: keyedFields F cont r
 end
 
 mutual
-/-- the documented reading: the member's own `sub_name`, at every depth -/
-def ownTy : DTy → Ty
-  | .prim p => .prim p
+/-- the documented reading: the member's own `sub_name` and own encoding, at every depth -/
+def ownTy (a : MAttr) : DTy → Ty
+  | .prim p => .prim (ownPrim a.encDeclared p)
   | .obj cid fs => .obj cid (ownFields fs)
 def ownFields : List DFld → List Fld
   | [] => []
-  | (n, a, occ, t) :: r => (a.sub.getD n, occ, ownTy t) :: ownFields r
+  | (n, a, occ, t) :: r => (a.sub.getD n, occ, ownTy a t) :: ownFields r
 end
 
 /-! ## what the user function sees of the instance: defaults and read-only members
@@ -82,5 +95,81 @@ def finishItems : DTy → List Node → List Node
   | _, [] => []
   | t, v :: r => finishNode t v :: finishItems t r
 end
+
+/-! ## values with identity: shared instances
+
+A native value is a graph: the same instance may sit at two members or twice in a list. `LNode` is its unfolding with the
+identity of every object kept as a label (a finite labelled tree is exactly an acyclic graph with sharing).
+`object_to_simple_dict` carries a set `tags` of instances it refuses to enter; `prune` is what that does to the value
+(a refused instance writes nothing, like None), `encodeShared` the flattening of a value with identity. -/
+
+inductive LNode where
+  | none
+  | leaf (v : Leaf)
+  | leaves (vs : List Leaf)
+  | obj (id : Nat) (attrs : List (Text × LNode))
+  | arr (items : List LNode)
+  deriving Repr, Inhabited
+
+mutual
+/-- forget identity -/
+def stripL : LNode → Node
+  | .none => .none
+  | .leaf v => .leaf v
+  | .leaves vs => .leaves vs
+  | .obj _ attrs => .obj (stripAttrsL attrs)
+  | .arr items => .arr [] (stripItemsL items)
+def stripAttrsL : List (Text × LNode) → List (Text × Node)
+  | [] => []
+  | (k, v) :: r => (k, stripL v) :: stripAttrsL r
+def stripItemsL : List LNode → List Node
+  | [] => []
+  | v :: r => stripL v :: stripItemsL r
+end
+
+mutual
+/-- the identities that occur in a value -/
+def idsL : LNode → List Nat
+  | .obj id attrs => id :: idsAttrsL attrs
+  | .arr items => idsItemsL items
+  | _ => []
+def idsAttrsL : List (Text × LNode) → List Nat
+  | [] => []
+  | (_, v) :: r => idsL v ++ idsAttrsL r
+def idsItemsL : List LNode → List Nat
+  | [] => []
+  | v :: r => idsL v ++ idsItemsL r
+end
+
+mutual
+/-- the walk with its `tags` (`seen`); `grow`: every instance entered is added to it -/
+def pruneNode (grow : Bool) (seen : List Nat) : LNode → LNode × List Nat
+  | .obj id attrs =>
+    if seen.contains id then (.none, seen)
+    else
+      let r := pruneAttrs grow (if grow then id :: seen else seen) attrs
+      (.obj id r.1, r.2)
+  | .arr items => let r := pruneItems grow seen items; (.arr r.1, r.2)
+  | n => (n, seen)
+def pruneAttrs (grow : Bool) (seen : List Nat) : List (Text × LNode) → List (Text × LNode) × List Nat
+  | [] => ([], seen)
+  | (k, v) :: r =>
+    let a := pruneNode grow seen v
+    let b := pruneAttrs grow a.2 r
+    ((k, a.1) :: b.1, b.2)
+def pruneItems (grow : Bool) (seen : List Nat) : List LNode → List LNode × List Nat
+  | [] => ([], seen)
+  | v :: r =>
+    let a := pruneNode grow seen v
+    let b := pruneItems grow a.2 r
+    (a.1 :: b.1, b.2)
+end
+
+/-- `object_to_simple_dict(cls, inst)` on a value with identity: `tags` starts with the root -/
+def encodeShared (F : Facts03) (delim : Text) (fields : List Fld) (root : LNode) : List (Text × EncVal) :=
+  match root with
+  | .obj id attrs =>
+    encode delim fields (stripL (.obj id (pruneAttrs (decide (F.encGuard = .visited)) [id] attrs).1))
+  | other => encode delim fields (stripL other)
 
 end SpyneModel.Flat
